@@ -1,3 +1,5 @@
+# SUPERSEDED: this comparison now runs inside `./check` (corr/c15.py thread_tie), through the driver binary and seeded from ctx.rng.
+# The stand-alone version below is kept for reference only: it depends on scratch files under /tmp and on a Lean main that no longer exists.
 """Cross-check of the Lean model `C15Thread.runThread` (driver command `c15thread.run`,
 lean/PyCraft/Drive/C15Thread.lean) against the REAL `NetworkingThread.run` of /repo, run synchronously
 on a real `Connection` whose socket / file object are stubs fed with a reference server's byte stream
